@@ -283,7 +283,9 @@ class Binding(TypedExpression):
         def render_value(expr: NixExpression) -> str:
             """Select inline or multiline rendering to mirror original intent."""
             if not value_layout.on_newline:
-                if isinstance(expr, NixList):
+                # A list whose layout is already decided renders the same way
+                # through rebuild(); the preview only matters while it is open.
+                if isinstance(expr, NixList) and expr.multiline is None:
                     inline_preview = expr.simple_inline_preview(indent=val_indent)
                     if inline_preview is not None:
                         return inline_preview
